@@ -49,6 +49,9 @@ fn main() {
                 }
             }
             let seed = marsim::runner::verif_seed();
+            if matches!(tier, Tier::Thorough) {
+                marsim::runner::RUN_LIMIT_SECS.store(900, std::sync::atomic::Ordering::Relaxed);
+            }
             std::process::exit(marsim::props::check(&id, tier, seed));
         }
         "debug-c03-tpl" => {
@@ -96,7 +99,9 @@ fn main() {
         }
         "replay" => {
             let f = args.get(2).cloned().unwrap_or_else(|| usage());
-            std::process::exit(marsim::props::replay_file(Path::new(&f)));
+            // a single case: minutes at most (C19 cells have their own per-worker watchdog)
+            let limit = std::env::var("VERIF_REPLAY_LIMIT_SECS").ok().and_then(|s| s.parse().ok()).unwrap_or(600);
+            std::process::exit(marsim::runner::with_process_watchdog(limit, || marsim::props::replay_file(Path::new(&f))));
         }
         _ => usage(),
     }
